@@ -40,15 +40,16 @@ impl TargetWatcher {
                     for path in paths {
                         match watcher.watch(path.as_path().into(), RecursiveMode::Recursive) {
                             Ok(_) => {}
+                            // notify reports a missing path either way, depending on the back end
                             Err(notify::Error {
                                 kind: ErrorKind::PathNotFound,
                                 ..
-                            }) => {
-                                log::warn!(
-                                    "{} - Skipping watch on non-existing path: {}",
-                                    target_id,
-                                    path.display(),
-                                );
+                            }) => Self::warn_non_existing_path(target_id, path),
+                            Err(notify::Error {
+                                kind: ErrorKind::Io(ref io_error),
+                                ..
+                            }) if io_error.kind() == std::io::ErrorKind::NotFound => {
+                                Self::warn_non_existing_path(target_id, path)
                             }
                             Err(e) => {
                                 return Err(Error::new(e).context(format!(
@@ -70,6 +71,14 @@ impl TargetWatcher {
         }
 
         Ok(None)
+    }
+
+    fn warn_non_existing_path(target_id: &TargetId, path: &PathBuf) {
+        log::warn!(
+            "{} - Skipping watch on non-existing path: {}",
+            target_id,
+            path.display(),
+        );
     }
 
     fn build_immediate_watcher(
